@@ -275,34 +275,35 @@ Inductive node :=
 | NFile (name : bytes) (k : fkind)
 | NDir (name : bytes) (children : list node).
 
+Definition uploadable (k : fkind) : bool := match k with KOther => false | _ => true end.
+
 (** The files (paths relative to the run directory) that collectArtifactsRec
-    puts in the tree.  Files of any kind are listed unless their name is an
-    editor temporary.  A directory with such a name is not listed itself, but
-    filepath.Walk still descends into it (the callback returns nil, not
-    SkipDir), so the files below it are listed all the same (in the parent's
-    list): as far as *files* go its name does not matter. *)
-Fixpoint listed_files (pre : list bytes) (n : node) : list (list bytes) :=
+    puts in the tree: regular files and symbolic links whose name is not an
+    editor temporary.  ([skip_other = false] is the code before fix 7f842c1,
+    which listed files of any kind.)  A directory with such a name is not
+    listed itself, but filepath.Walk still descends into it (the callback
+    returns nil, not SkipDir), so the files below it are listed all the same
+    (in the parent's list): as far as *files* go its name does not matter. *)
+Fixpoint listed_files_gen (skip_other : bool) (pre : list bytes) (n : node) : list (list bytes) :=
   match n with
-  | NFile nm _ => if editor_temp nm then [] else [pre ++ [nm]]
-  | NDir nm cs => flat_map (listed_files (pre ++ [nm])) cs
+  | NFile nm k =>
+      if editor_temp nm then []
+      else if skip_other && negb (uploadable k) then []
+      else [pre ++ [nm]]
+  | NDir nm cs => flat_map (listed_files_gen skip_other (pre ++ [nm])) cs
   end.
+Definition listed_files := listed_files_gen true.
 
 (** The files removeNonUploadableFiles leaves: it removes what is neither a
     regular file nor a symbolic link, and editor temporaries; directories are
     never removed (nor skipped). *)
-Definition uploadable (k : fkind) : bool := match k with KOther => false | _ => true end.
 Fixpoint surviving_files (pre : list bytes) (n : node) : list (list bytes) :=
   match n with
   | NFile nm k => if uploadable k && negb (editor_temp nm) then [pre ++ [nm]] else []
   | NDir nm cs => flat_map (surviving_files (pre ++ [nm])) cs
   end.
 
-Fixpoint all_uploadable (n : node) : bool :=
-  match n with
-  | NFile _ k => uploadable k
-  | NDir _ cs => forallb all_uploadable cs
-  end.
-
 (** For the content of the run directory (the root itself is not named). *)
 Definition listed_in (cs : list node) : list (list bytes) := flat_map (listed_files []) cs.
+Definition listed_in_pinned (cs : list node) : list (list bytes) := flat_map (listed_files_gen false []) cs.
 Definition surviving_in (cs : list node) : list (list bytes) := flat_map (surviving_files []) cs.
